@@ -884,14 +884,14 @@ Proof.
   destruct (cut_kids (HNode i k m d ks) ks) as [|ks' cu|ks' cu].
   - exact K.
   - destruct K as [A [B C]]. split; [|split; [constructor; auto|reflexivity]].
-    eapply cut_post_frame; [apply A| | |].
-    + simpl. change (flat_map ents ks) with (entsl ks). perm.
-    + simpl. change (flat_map ents ks') with (entsl ks'). perm.
+    eapply cut_post_frame with (F := [(k, i, d)]); [apply A| | |].
+    + simpl. change (flat_map ents ks) with (entsl ks). apply Permutation_cons_append.
+    + simpl. change (flat_map ents ks') with (entsl ks'). apply Permutation_cons_append.
     + intros e [<-|[]]. right. left. reflexivity.
   - destruct K as [A [B C]]. split; [|split; [constructor; auto|reflexivity]].
-    eapply cut_post_frame; [apply A| | |].
-    + simpl. change (flat_map ents ks) with (entsl ks). perm.
-    + simpl. change (flat_map ents ks') with (entsl ks'). perm.
+    eapply cut_post_frame with (F := [(k, i, d)]); [apply A| | |].
+    + simpl. change (flat_map ents ks) with (entsl ks). apply Permutation_cons_append.
+    + simpl. change (flat_map ents ks') with (entsl ks'). apply Permutation_cons_append.
     + intros e [<-|[]]. right. left. reflexivity.
 Qed.
 
@@ -951,3 +951,767 @@ Proof.
 Qed.
 
 End CutProofs.
+
+(* ---- splicing cut nodes into the root ring ---- *)
+Lemma splice_perm : forall ks rs, Permutation (entsl (splice rs ks)) (entsl rs ++ entsl ks).
+Proof.
+  unfold splice. induction ks as [|c ks IH]; intros rs; cbn [fold_left].
+  - change (entsl []) with (@nil ent). rewrite app_nil_r. reflexivity.
+  - rewrite IH. rewrite entsl_ring_add. rewrite (entsl_cons c ks). perm.
+Qed.
+
+Lemma In_splice y : forall ks rs, In y (splice rs ks) <-> In y rs \/ In y ks.
+Proof.
+  unfold splice. induction ks as [|c ks IH]; intros rs; cbn [fold_left].
+  - simpl. tauto.
+  - rewrite IH, In_ring_add_iff. simpl. intuition.
+Qed.
+
+Lemma Forall_splice (P : hnode -> Prop) rs ks : Forall P rs -> Forall P ks -> Forall P (splice rs ks).
+Proof.
+  intros A B. rewrite Forall_forall in *. intros y Hy. apply In_splice in Hy. destruct Hy; auto.
+Qed.
+
+Lemma same_ids_root rs rs' r : map nid rs' = map nid rs -> In r rs -> exists r', In r' rs' /\ nid r' = nid r.
+Proof.
+  intros E Hr. apply (in_map nid) in Hr. rewrite <- E in Hr. apply in_map_iff in Hr.
+  destruct Hr as [r' [A B]]. eauto.
+Qed.
+
+Lemma abs_perm h E : Permutation (entsl (roots h)) E -> Permutation (abs h) (map fst E).
+Proof. intros P. unfold abs. apply Permutation_map. auto. Qed.
+
+(* ---- decrease_key ---- *)
+Lemma node_lt_upd k xn mn : ndel mn = false -> node_lt lt (set_kd k false xn) mn = lt k (nkey mn).
+Proof. intros H. destruct xn, mn. unfold node_lt. simpl in *. reflexivity. Qed.
+
+Lemma nent_eq t k i d : nent t = (k, i, d) -> nkey t = k /\ nid t = i /\ ndel t = d.
+Proof. unfold nent. intros H. inversion H. auto. Qed.
+Lemma nent_eq2 a b : nent a = nent b -> nkey a = nkey b /\ nid a = nid b /\ ndel a = ndel b.
+Proof. unfold nent. intros H. inversion H. auto. Qed.
+
+Lemma decrease_key_spec h next x k : Inv h next ->
+  exists h' r, decrease_key lt x k h = (h', r, false) /\ Inv h' next /\
+    ((~ In x (map snd (abs h)) /\ h' = h /\ r = RNone) \/
+     (exists kx, In (kx, x) (abs h) /\ lt kx k = true /\ h' = h /\ r = RExc ValueError) \/
+     (exists kx E, Permutation (abs h) ((kx, x) :: E) /\ lt kx k = false /\ r = RNone /\
+                   Permutation (abs h') ((k, x) :: E))).
+Proof.
+  intros I. unfold decrease_key. destruct (find_forest x (roots h)) as [xn|] eqn:Hf.
+  2:{ exists h, RNone. split; auto. split; auto. left. split; auto.
+      apply find_forest_none in Hf. rewrite Forall_forall in Hf. intros Hin.
+      unfold abs in Hin. rewrite map_map in Hin. apply in_map_iff in Hin. destruct Hin as [e [He1 He2]].
+      apply (Hf e He2). exact He1. }
+  destruct (find_forest_some _ _ _ Hf) as [Hxin Hxid].
+  destruct (lt (nkey xn) k) eqn:L.
+  { exists h, (RExc ValueError). split; auto. split; auto. right. left. exists (nkey xn).
+    split; [|auto]. unfold abs. apply in_map_iff. exists (nent xn). split; auto.
+    unfold nent. simpl. rewrite Hxid. reflexivity. }
+  pose proof (inv_nodup _ _ I) as Hnd. pose proof (inv_clean _ _ I) as Hcl.
+  pose proof (inv_ids _ _ I) as Hids. pose proof (inv_hord _ _ I) as Hho.
+  assert (Hdx : ndel xn = false) by (rewrite Forall_forall in Hcl; apply (Hcl _ Hxin)).
+  rewrite Hdx.
+  destruct (cut_roots_ok x k false (roots h)) as [rs' [cu [Hc RP]]]; auto.
+  { apply Forall_forall. intros e He Hex.
+    assert (e = nent xn) by (eapply nodup_ent; eauto; unfold eid, nent in *; simpl in *; congruence).
+    subst e. exact L. }
+  { apply Exists_exists. exists (nent xn). split; auto. }
+  rewrite Hc.
+  destruct (minp h) as [m|] eqn:Hm.
+  2:{ pose proof (inv_min _ _ I) as Hmin. unfold min_ok in Hmin. rewrite Hm in Hmin. rewrite Hmin in Hxin.
+      destruct Hxin. }
+  destruct RP as [kx [dx [E [P1 [P2 [Hh' [Hcu [Hsame D]]]]]]]].
+  assert (PE2 : Permutation (entsl (splice rs' cu)) ((k, x, false) :: E)) by (rewrite splice_perm; auto).
+  assert (Hnd1 : NoDup (map eid ((kx, x, dx) :: E))).
+  { eapply Permutation_NoDup; [apply Permutation_map; apply P1|auto]. }
+  assert (Hnd2 : NoDup (map eid ((k, x, false) :: E))) by exact Hnd1.
+  assert (Hnd3 : NoDup (map eid (entsl (splice rs' cu)))).
+  { eapply Permutation_NoDup; [apply Permutation_map; symmetry; apply PE2|auto]. }
+  assert (Exn : (kx, x, dx) = nent xn).
+  { eapply nodup_ent; [apply Hnd| |auto|unfold eid, nent; simpl; congruence].
+    eapply Permutation_in; [symmetry; apply P1|left; reflexivity]. }
+  assert (Ekx : kx = nkey xn) by (unfold nent in Exn; congruence).
+  assert (Hcl1 : Forall (fun e => edel e = false) ((kx, x, dx) :: E)) by (eapply Permutation_Forall; eauto).
+  assert (Hcl2 : Forall (fun e => edel e = false) ((k, x, false) :: E)).
+  { inversion Hcl1; subst. constructor; auto. }
+  assert (Hids1 : Forall (fun e => 0 <= eid e < next) ((kx, x, dx) :: E)) by (eapply Permutation_Forall; eauto).
+  assert (Hids2 : Forall (fun e => 0 <= eid e < next) ((k, x, false) :: E)).
+  { inversion Hids1; subst. constructor; auto. }
+  pose proof (inv_min _ _ I) as Hmin. unfold min_ok in Hmin. rewrite Hm in Hmin.
+  destruct Hmin as [r [Hr [Hrid Hall]]].
+  assert (Hall1 : Forall (fun e => lt (ekey e) (nkey r) = false) ((kx, x, dx) :: E)) by (eapply Permutation_Forall; eauto).
+  assert (HallE : Forall (fun e => lt (ekey e) (nkey r) = false) E) by (inversion Hall1; auto).
+  destruct (same_ids_root _ _ r Hsame Hr) as [r' [Hr' Hr'id]].
+  assert (Hr'2 : In r' (splice rs' cu)) by (apply In_splice; auto).
+  assert (Hr'e : In (nent r') (entsl (splice rs' cu))) by (apply root_ent; auto).
+  destruct (find_forest_in m (splice rs' cu) (nent r') Hr'e) as [mn Hmn].
+  { unfold eid, nent. simpl. congruence. }
+  rewrite Hmn. destruct (find_forest_some _ _ _ Hmn) as [Hmnin Hmnid].
+  assert (Emn : nent mn = nent r').
+  { eapply nodup_ent; [apply Hnd3|auto|auto|unfold eid, nent; simpl; congruence]. }
+  destruct (nent_eq2 _ _ Emn) as [Emk [Emi Emd]].
+  assert (Hr'n : In (nent r') ((k, x, false) :: E)) by (eapply Permutation_in; eauto).
+  assert (Hdr' : ndel r' = false).
+  { rewrite Forall_forall in Hcl2. apply (Hcl2 _ Hr'n). }
+  rewrite node_lt_upd by congruence. rewrite Emk.
+  eexists. exists RNone. split; [reflexivity|]. split.
+  2:{ right. right. exists kx, (map fst E). split; [apply (abs_perm h _ P1)|]. split; [congruence|].
+      split; auto. apply (abs_perm {| roots := splice rs' cu; minp := _; hn := hn h |} _ PE2). }
+  eapply Inv_intro; simpl; eauto.
+  - apply Forall_splice; auto.
+  - rewrite (inv_n _ _ I). rewrite (Permutation_length P1). reflexivity.
+  - unfold min_ok. simpl. destruct (Z.eq_dec m x) as [Emx|Nmx].
+    + (* the minimum itself was decreased: it is a root *)
+      assert (Er' : nent r' = (k, x, false)).
+      { eapply nodup_ent; [apply Hnd2|auto|left; reflexivity|unfold eid, nent; simpl; congruence]. }
+      destruct (nent_eq _ _ _ _ Er') as [Ek' [Ei' Ed']]. rewrite Ek', lt_irrefl.
+      exists r'. split; auto. split; [congruence|].
+      eapply Permutation_Forall; [symmetry; apply PE2|]. constructor; [rewrite Ek'; apply lt_irrefl|].
+      assert (Er : nent r = (kx, x, dx)).
+      { eapply nodup_ent; [apply Hnd|apply root_ent; auto| |unfold eid, nent; simpl; congruence].
+        eapply Permutation_in; [symmetry; apply P1|left; reflexivity]. }
+      destruct (nent_eq _ _ _ _ Er) as [Erk [Eri Erd]].
+      eapply Forall_impl; [|apply HallE]. intros e He. simpl in He.
+      eapply lt_negtrans; [apply He|]. congruence.
+    + assert (Hr'E : In (nent r') E).
+      { destruct Hr'n as [Hx|]; auto. exfalso. apply Nmx. symmetry in Hx. apply nent_eq in Hx. destruct Hx as [_ [Hx _]]. congruence. }
+      assert (Er : nent r' = nent r).
+      { eapply nodup_ent; [apply Hnd| |apply root_ent; auto|unfold eid, nent; simpl; congruence].
+        eapply Permutation_in; [symmetry; apply P1|right; auto]. }
+      destruct (nent_eq2 _ _ Er) as [Erk [Eri Erd]]. rewrite Erk.
+      destruct (lt k (nkey r)) eqn:L2.
+      * destruct D as [[x' [Hx' Ex']]|[e [He Hn]]].
+        -- destruct (nent_eq _ _ _ _ Ex') as [Exk [Exi Exd]]. exists x'. split; [apply In_splice; apply in_app_or in Hx'; auto|].
+           split; auto.
+           eapply Permutation_Forall; [symmetry; apply PE2|]. constructor; [rewrite Exk; apply lt_irrefl|].
+           eapply Forall_impl; [|apply HallE]. intros e He. simpl in He.
+           eapply lt_negtrans; [apply He|]. rewrite Exk. apply lt_asym. auto.
+        -- exfalso. unfold nlt in Hn. simpl in Hn.
+           rewrite Forall_forall in HallE. pose proof (lt_negtrans _ _ _ Hn (HallE e He)). congruence.
+      * exists r'. split; auto. split; [congruence|]. rewrite Erk.
+        eapply Permutation_Forall; [symmetry; apply PE2|]. constructor; auto.
+  - apply (inv_next _ _ I).
+Qed.
+
+(* ---- remove ---- *)
+Lemma remove_spec h next x : Inv h next ->
+  exists h', remove lt x h = (h', RNone, false) /\ Inv h' next /\
+    ((~ In x (map snd (abs h)) /\ h' = h) \/
+     (exists kx, Permutation (abs h) ((kx, x) :: abs h'))).
+Proof.
+  intros I. unfold remove. destruct (find_forest x (roots h)) as [xn|] eqn:Hf.
+  2:{ exists h. split; auto. split; auto. left. split; auto.
+      apply find_forest_none in Hf. rewrite Forall_forall in Hf. intros Hin.
+      unfold abs in Hin. rewrite map_map in Hin. apply in_map_iff in Hin. destruct Hin as [e [He1 He2]].
+      apply (Hf e He2). exact He1. }
+  destruct (find_forest_some _ _ _ Hf) as [Hxin Hxid].
+  pose proof (inv_nodup _ _ I) as Hnd. pose proof (inv_clean _ _ I) as Hcl.
+  pose proof (inv_ids _ _ I) as Hids. pose proof (inv_hord _ _ I) as Hho.
+  destruct (cut_roots_ok x (nkey xn) true (roots h)) as [rs' [cu [Hc RP]]]; auto.
+  { apply Forall_forall. intros e He Hex.
+    assert (e = nent xn) by (eapply nodup_ent; eauto; unfold eid, nent in *; simpl in *; congruence).
+    subst e. apply lt_irrefl. }
+  { apply Exists_exists. exists (nent xn). split; auto. }
+  rewrite Hc.
+  destruct RP as [kx [dx [E [P1 [P2 [Hh' [Hcu [Hsame D]]]]]]]].
+  assert (PE2 : Permutation (entsl (splice rs' cu)) ((nkey xn, x, true) :: E)) by (rewrite splice_perm; auto).
+  assert (Hnd1 : NoDup (map eid ((kx, x, dx) :: E))).
+  { eapply Permutation_NoDup; [apply Permutation_map; apply P1|auto]. }
+  assert (Hnd2 : NoDup (map eid ((nkey xn, x, true) :: E))) by exact Hnd1.
+  assert (Hnd3 : NoDup (map eid (entsl (splice rs' cu)))).
+  { eapply Permutation_NoDup; [apply Permutation_map; symmetry; apply PE2|auto]. }
+  assert (Hcl1 : Forall (fun e => edel e = false) ((kx, x, dx) :: E)) by (eapply Permutation_Forall; eauto).
+  assert (HclE : Forall (fun e => edel e = false) E) by (inversion Hcl1; auto).
+  assert (Hids1 : Forall (fun e => 0 <= eid e < next) ((kx, x, dx) :: E)) by (eapply Permutation_Forall; eauto).
+  assert (Hids2 : Forall (fun e => 0 <= eid e < next) ((nkey xn, x, true) :: E)).
+  { inversion Hids1; subst. constructor; auto. }
+  destruct D as [[x' [Hx' Ex']]|[e [He Hn]]].
+  2:{ exfalso. unfold nlt in Hn. rewrite Forall_forall in HclE. rewrite (HclE e He) in Hn. discriminate. }
+  destruct (nent_eq _ _ _ _ Ex') as [Exk [Exi Exd]].
+  assert (Hx'2 : In x' (splice rs' cu)) by (apply In_splice; apply in_app_or in Hx'; auto).
+  destruct (in_split _ _ Hx'2) as [p [q Hpq]].
+  assert (PE3 : Permutation (entsl (splice rs' cu)) (nent x' :: entsl (p ++ q ++ nkids x'))).
+  { rewrite Hpq. ex. rewrite (ents_unfold x'). perm. }
+  assert (PE4 : Permutation (entsl (p ++ q ++ nkids x')) E).
+  { apply (Permutation_cons_inv (a := nent x')). rewrite <- PE3, PE2, Ex'. reflexivity. }
+  destruct (extract_inv {| roots := splice rs' cu; minp := Some x; hn := hn h |} next x x' p q)
+    as [h' [A [B C]]]; simpl; auto.
+  - apply Forall_splice; auto.
+  - rewrite (inv_n _ _ I). rewrite (Permutation_length P1), (Permutation_length PE2). reflexivity.
+  - eapply Permutation_Forall; [symmetry; apply PE4|auto].
+  - eapply Permutation_Forall; [symmetry; apply PE2|auto].
+  - apply (inv_next _ _ I).
+  - rewrite A. exists h'. split; auto. split; auto. right. exists kx.
+    simpl in C. rewrite (abs_perm h _ P1). simpl. constructor. unfold abs.
+    apply Permutation_map. apply (Permutation_cons_inv (a := nent x')). rewrite <- C, PE2, Ex'. reflexivity.
+Qed.
+
+(* ---- histories ---- *)
+(* the model never reports an internal error (a missing node, an exhausted fuel) and keeps the invariant *)
+Definition SInv (s : mstate) : Prop := serr s = false /\ Inv (sh s) (snext s).
+
+Definition minimal (k : Z) (A : list (Z * Z)) : Prop := forall y, In y A -> lt (fst y) k = false.
+
+(* what one operation does to the multiset A of live (key, item id) pairs, and what it returns *)
+Definition op_spec (o : op) (next : Z) (A : list (Z * Z)) (r : ret) (A' : list (Z * Z)) : Prop :=
+  match o with
+  | Push k => r = RItem next k /\ Permutation A' ((k, next) :: A)
+  | Peek => (A = [] /\ r = RExc AttributeError /\ A' = A) \/
+            (exists m k, r = RItem m k /\ In (k, m) A /\ minimal k A /\ A' = A)
+  | Pop => (A = [] /\ r = RExc AttributeError /\ A' = A) \/
+           (exists m k, r = RItem m k /\ minimal k A /\ Permutation A ((k, m) :: A'))
+  | DecreaseKey x k =>
+      (~ In x (map snd A) /\ A' = A /\ r = RNone) \/
+      (exists kx, In (kx, x) A /\ lt kx k = true /\ A' = A /\ r = RExc ValueError) \/
+      (exists kx E, Permutation A ((kx, x) :: E) /\ lt kx k = false /\ r = RNone /\ Permutation A' ((k, x) :: E))
+  | Remove x =>
+      r = RNone /\ ((~ In x (map snd A) /\ A' = A) \/ (exists kx, Permutation A ((kx, x) :: A')))
+  end.
+
+Definition next_after_op (o : op) (next : Z) : Z := match o with Push _ => next + 1 | _ => next end.
+
+Lemma Inv_size h next : Inv h next -> hn h = Z.of_nat (length (abs h)).
+Proof. intros I. unfold abs. rewrite map_length. apply (inv_n _ _ I). Qed.
+
+Lemma Inv_ids_unique h next : Inv h next -> NoDup (map snd (abs h)).
+Proof. intros I. unfold abs. rewrite map_map. apply (inv_nodup _ _ I). Qed.
+
+Lemma Inv_ids_range h next : Inv h next -> forall y, In y (abs h) -> 0 <= snd y < next.
+Proof.
+  intros I y Hy. unfold abs in Hy. apply in_map_iff in Hy. destruct Hy as [e [<- He]].
+  pose proof (inv_ids _ _ I) as Hi. rewrite Forall_forall in Hi. apply (Hi e He).
+Qed.
+
+Lemma step_spec s o : SInv s ->
+  let s' := step lt s o in
+  SInv s' /\ snext s' = next_after_op o (snext s) /\
+  op_spec o (snext s) (abs (sh s)) (step_ret lt s o) (abs (sh s')).
+Proof.
+  intros [He I]. unfold step, step_ret, apply_op.
+  assert (F : forall h' nx (P : Prop), Inv h' nx -> nx = next_after_op o (snext s) -> P ->
+              SInv {| sh := h'; snext := nx; serr := serr s || false |} /\
+              snext {| sh := h'; snext := nx; serr := serr s || false |} = next_after_op o (snext s) /\ P).
+  { intros h' nx P Hi Hn HP. rewrite He. split; [split; [reflexivity|exact Hi]|split; [exact Hn|exact HP]]. }
+  destruct o as [k| | |x k|x]; cbn [next_after_op op_spec] in *.
+  - destruct (push_spec (sh s) (snext s) k I) as [h' [A [B C]]]. rewrite A. apply F; auto.
+  - destruct (pop_spec (sh s) (snext s) I) as [[A B]|[h' [m [k [A [B [C D]]]]]]]; rewrite ?B, ?A; apply F; auto.
+    + left. unfold abs. cbn [sh]. rewrite A. auto.
+    + right. exists m, k. auto.
+  - destruct (peek_spec (sh s) (snext s) I) as [[A B]|[m [k [A [B C]]]]]; rewrite ?B, ?A; apply F; auto.
+    + left. unfold abs. cbn [sh]. rewrite A. auto.
+    + right. exists m, k. auto.
+  - destruct (decrease_key_spec (sh s) (snext s) x k I) as [h' [r [A [B C]]]]. rewrite A. apply F; auto.
+    destruct C as [[C1 [-> ->]]|[[kx [C1 [C2 [-> ->]]]]|[kx [E [C1 [C2 [-> C3]]]]]]]; eauto 10.
+  - destruct (remove_spec (sh s) (snext s) x I) as [h' [A [B C]]]. rewrite A. apply F; auto.
+    split; auto. destruct C as [[C1 ->]|[kx C1]]; eauto.
+Qed.
+
+Lemma SInv_init : SInv init.
+Proof. split; [reflexivity|]. apply Inv_empty. simpl. lia. Qed.
+
+Lemma fold_inv ops : forall s, SInv s -> SInv (fold_left (step lt) ops s).
+Proof.
+  induction ops as [|o ops IH]; intros s Hs; simpl; auto. apply IH. apply (step_spec s o Hs).
+Qed.
+
+(* for every history: no internal error, the invariant, unique item ids, size = number of live items *)
+Theorem run_inv ops : let s := run lt ops in
+  serr s = false /\ Inv (sh s) (snext s) /\ NoDup (map snd (abs (sh s))) /\
+  hn (sh s) = Z.of_nat (length (abs (sh s))).
+Proof.
+  destruct (fold_inv ops init SInv_init) as [A B]. cbv zeta. unfold run.
+  split; auto. split; auto. split; [eapply Inv_ids_unique|eapply Inv_size]; eauto.
+Qed.
+
+(* ... and whatever operation comes next acts on the multiset of live items as specified *)
+Theorem run_step ops o : let s := run lt ops in let s' := run lt (ops ++ [o]) in
+  op_spec o (snext s) (abs (sh s)) (step_ret lt s o) (abs (sh s')) /\
+  snext s' = next_after_op o (snext s) /\ (forall y, In y (abs (sh s)) -> 0 <= snd y < snext s).
+Proof.
+  cbv zeta. unfold run. rewrite fold_left_app. cbn [fold_left].
+  pose proof (fold_inv ops init SInv_init) as Hs.
+  destruct (step_spec _ o Hs) as [A [B C]]. split; auto. split; auto.
+  destruct Hs as [_ I]. apply (Inv_ids_range _ _ I).
+Qed.
+
+(* ---- the executable statement holds_C16 (FibHeapSpec.v) follows from the multiset refinement ---- *)
+Definition flip (p : Z * Z) : Z * Z := (snd p, fst p).
+(* the reference's association list (id, key) against the abstract multiset (key, id) *)
+Definition live_rel (l : live) (A : list (Z * Z)) : Prop := Permutation (map flip l) A.
+
+Lemma lookup_in i : forall l k, lookup i l = Some k -> In (i, k) l.
+Proof.
+  induction l as [|[j k'] l IH]; simpl; intros k H; [discriminate|].
+  destruct (Z.eqb i j) eqn:E.
+  - apply Z.eqb_eq in E. inversion H; subst. auto.
+  - auto.
+Qed.
+
+Lemma lookup_nodup i k : forall l, NoDup (map fst l) -> In (i, k) l -> lookup i l = Some k.
+Proof.
+  induction l as [|[j k'] l IH]; simpl; intros Hn H; [tauto|].
+  inversion Hn as [|? ? Hj Hn']; subst.
+  destruct (Z.eqb i j) eqn:E.
+  - apply Z.eqb_eq in E. subst j. destruct H as [H|H]; [inversion H; auto|].
+    exfalso. apply Hj. apply (in_map fst) in H. exact H.
+  - destruct H as [H|H]; [inversion H; subst; rewrite Z.eqb_refl in E; discriminate|auto].
+Qed.
+
+Lemma delete_perm i : forall l k, lookup i l = Some k -> Permutation l ((i, k) :: delete i l).
+Proof.
+  induction l as [|[j k'] l IH]; simpl; intros k H; [discriminate|].
+  destruct (Z.eqb i j) eqn:E.
+  - apply Z.eqb_eq in E. inversion H; subst. reflexivity.
+  - rewrite perm_swap. constructor. auto.
+Qed.
+
+Lemma update_perm i k : forall l k0, lookup i l = Some k0 -> Permutation (update i k l) ((i, k) :: delete i l).
+Proof.
+  induction l as [|[j k'] l IH]; simpl; intros k0 H; [discriminate|].
+  destruct (Z.eqb i j) eqn:E.
+  - apply Z.eqb_eq in E. subst. reflexivity.
+  - rewrite perm_swap. constructor. eauto.
+Qed.
+
+Lemma live_in l A i k : live_rel l A -> (In (i, k) l <-> In (k, i) A).
+Proof.
+  intros R. split; intros H.
+  - eapply Permutation_in; [apply R|]. apply in_map_iff. exists (i, k). auto.
+  - eapply Permutation_in in H; [|symmetry; apply R]. apply in_map_iff in H.
+    destruct H as [[a b] [H1 H2]]. unfold flip in H1. simpl in H1. inversion H1; subst. auto.
+Qed.
+
+Lemma live_nodup l A : live_rel l A -> NoDup (map snd A) -> NoDup (map fst l).
+Proof.
+  intros R H. eapply Permutation_NoDup in H; [|apply Permutation_map; symmetry; apply R].
+  rewrite map_map in H. exact H.
+Qed.
+
+Lemma nodup_snd (A : list (Z * Z)) a b i : NoDup (map snd A) -> In (a, i) A -> In (b, i) A -> a = b.
+Proof.
+  induction A as [|[c j] A IH]; simpl; intros Hn H1 H2; [tauto|].
+  inversion Hn as [|? ? Hj Hn']; subst.
+  destruct H1 as [H1|H1], H2 as [H2|H2].
+  - congruence.
+  - inversion H1; subst. exfalso. apply Hj. apply (in_map snd) in H2. exact H2.
+  - inversion H2; subst. exfalso. apply Hj. apply (in_map snd) in H1. exact H1.
+  - auto.
+Qed.
+
+Lemma live_delete l A i k A' : live_rel l A -> lookup i l = Some k -> Permutation A ((k, i) :: A') ->
+  live_rel (delete i l) A'.
+Proof.
+  intros R Hl P. unfold live_rel in *. apply (Permutation_cons_inv (a := (k, i))).
+  transitivity (map flip l); [symmetry; apply (Permutation_map flip (delete_perm i l k Hl))|].
+  transitivity A; auto.
+Qed.
+
+Lemma is_min_ok l A m k : live_rel l A -> NoDup (map snd A) -> In (k, m) A -> minimal k A ->
+  is_min lt m k l = true.
+Proof.
+  intros R Hn Hin Hmin. unfold is_min.
+  rewrite (lookup_nodup m k l (live_nodup _ _ R Hn) (proj2 (live_in _ _ _ _ R) Hin)).
+  rewrite Z.eqb_refl. simpl. apply forallb_forall. intros [i k0] He.
+  apply (proj1 (live_in _ _ _ _ R)) in He. apply Hmin in He. simpl in *. rewrite He. reflexivity.
+Qed.
+
+Lemma live_nil l A : live_rel l A -> (l = [] <-> A = []).
+Proof.
+  intros R. split; intros ->.
+  - apply Permutation_nil. exact R.
+  - unfold live_rel in R. symmetry in R. apply Permutation_nil in R. destruct l; [auto|discriminate].
+Qed.
+
+Lemma ref_step_ok o l next A r A' : live_rel l A -> NoDup (map snd A) -> wf_step l o = true ->
+  op_spec o next A r A' ->
+  exists l', ref_step lt l next o r = (true, l', next_after_op o next) /\ live_rel l' A'.
+Proof.
+  intros R Hn Hwf S. destruct o as [k| | |i k|i]; cbn [op_spec next_after_op wf_step] in *.
+  - destruct S as [-> P]. simpl. rewrite !Z.eqb_refl. eexists. split; [reflexivity|].
+    unfold live_rel in *. simpl. unfold flip at 1. simpl. rewrite P, R. reflexivity.
+  - (* Pop *)
+    destruct S as [[HA [-> ->]]|[m [k [-> [Hmin P]]]]].
+    + apply (live_nil _ _ R) in HA. subst l. simpl. eexists. split; [reflexivity|auto].
+    + assert (Hin : In (k, m) A) by (eapply Permutation_in; [symmetry; apply P|left; reflexivity]).
+      destruct l as [|p l0].
+      { pose proof (proj1 (live_nil _ _ R) eq_refl). subst A. destruct Hin. }
+      unfold ref_step. rewrite (is_min_ok (p :: l0) A m k); auto.
+      eexists. split; [reflexivity|]. eapply live_delete; eauto.
+      apply lookup_nodup; [eapply live_nodup; eauto|]. apply (live_in _ _ _ _ R). auto.
+  - (* Peek *)
+    destruct S as [[HA [-> ->]]|[m [k [-> [Hin [Hmin ->]]]]]].
+    + apply (live_nil _ _ R) in HA. subst l. simpl. eexists. split; [reflexivity|auto].
+    + destruct l as [|p l0].
+      { pose proof (proj1 (live_nil _ _ R) eq_refl). subst A. destruct Hin. }
+      unfold ref_step. rewrite (is_min_ok (p :: l0) A m k); auto.
+      eexists. split; [reflexivity|auto].
+  - (* DecreaseKey *)
+    destruct (lookup i l) as [old|] eqn:Hl; [|discriminate].
+    assert (Hold : In (old, i) A) by (apply (live_in _ _ _ _ R); apply lookup_in; auto).
+    unfold ref_step. rewrite Hl.
+    destruct S as [[H _]|[[kx [H1 [H2 [-> ->]]]]|[kx [E [P [H2 [-> P']]]]]]].
+    + exfalso. apply H. apply (in_map snd) in Hold. exact Hold.
+    + assert (kx = old) by (eapply nodup_snd; eauto). subst kx. rewrite H2.
+      eexists. split; [reflexivity|auto].
+    + assert (kx = old).
+      { eapply nodup_snd; eauto. eapply Permutation_in; [symmetry; apply P|left; reflexivity]. }
+      subst kx. rewrite H2. eexists. split; [reflexivity|].
+      unfold live_rel. rewrite (update_perm i k l old Hl), P'. simpl. unfold flip at 1. simpl.
+      constructor. apply (live_delete l A i old E R Hl P).
+  - (* Remove *)
+    destruct (lookup i l) as [old|] eqn:Hl; [|discriminate].
+    assert (Hold : In (old, i) A) by (apply (live_in _ _ _ _ R); apply lookup_in; auto).
+    unfold ref_step. rewrite Hl.
+    destruct S as [-> [[H _]|[kx P]]].
+    + exfalso. apply H. apply (in_map snd) in Hold. exact Hold.
+    + assert (kx = old).
+      { eapply nodup_snd; eauto. eapply Permutation_in; [symmetry; apply P|left; reflexivity]. }
+      subst kx. eexists. split; [reflexivity|]. eapply live_delete; eauto.
+Qed.
+
+(* an observed history whose return values and lengths are the model's *)
+Fixpoint agrees (s : mstate) (h : list (op * obs)) : Prop :=
+  match h with
+  | [] => True
+  | (o, ob) :: rest => o_ret ob = step_ret lt s o /\ o_len ob = hn (sh (step lt s o)) /\ agrees (step lt s o) rest
+  end.
+
+Lemma ref_run_agrees : forall h s l, SInv s -> live_rel l (abs (sh s)) -> agrees s h ->
+  ref_run lt true true l (snext s) h = true.
+Proof.
+  induction h as [|[o ob] rest IH]; intros s l Hs R Ha; [reflexivity|].
+  cbn [ref_run]. destruct (wf_step l o) eqn:Hwf; [|reflexivity].
+  destruct Ha as [Hr [Hlen Ha]].
+  destruct (step_spec s o Hs) as [Hs' [Hnx Hop]].
+  destruct Hs as [He I].
+  destruct (ref_step_ok o l (snext s) _ _ _ R (Inv_ids_unique _ _ I) Hwf Hop) as [l' [Hrs R']].
+  rewrite Hr, Hrs. rewrite <- Hnx. rewrite (IH _ l' Hs' R' Ha).
+  destruct Hs' as [_ I']. rewrite Hlen, (Inv_size _ _ I').
+  rewrite <- (Permutation_length R'), map_length. rewrite Z.eqb_refl. reflexivity.
+Qed.
+
+(* ---- smallest / largest ---- *)
+Definition small_spec (keys : list Z) (n : Z) (out : list (Z * Z)) : Prop :=
+  exists rest, Permutation (kitems 0 keys) (out ++ rest) /\
+    Z.of_nat (length out) = Z.min (Z.max n 0) (Z.of_nat (length keys)) /\
+    (forall a b, In a out -> In b rest -> lt (fst b) (fst a) = false) /\
+    (n < Z.of_nat (length keys) -> sorted_by lt (map fst out) = true).
+
+Lemma pushes_spec : forall keys s, SInv s ->
+  let s' := fold_left (step lt) (map Push keys) s in
+  SInv s' /\ Permutation (abs (sh s')) (kitems (snext s) keys ++ abs (sh s)).
+Proof.
+  induction keys as [|k keys IH]; intros s Hs; cbn [map fold_left kitems].
+  - split; auto.
+  - destruct (step_spec s (Push k) Hs) as [Hs' [Hnx [_ P]]]. cbn [next_after_op] in Hnx.
+    destruct (IH _ Hs') as [A B]. split; auto. rewrite B, Hnx, P. symmetry. apply Permutation_middle.
+Qed.
+
+Lemma pop_n_spec : forall n h next, Inv h next -> (n <= length (abs h))%nat ->
+  let out := pop_n lt n h in
+  exists rest, length out = n /\ Permutation (abs h) (out ++ rest) /\
+    (forall a b, In a out -> In b rest -> lt (fst b) (fst a) = false) /\
+    sorted_by lt (map fst out) = true /\ Forall (fun a => In a (abs h)) out.
+Proof.
+  induction n as [|n IH]; intros h next I Hn; cbn [pop_n].
+  - exists (abs h). repeat split; auto. intros a b [].
+  - pose proof (Inv_size _ _ I) as Hsz.
+    destruct (Z.leb (hn h) 0) eqn:Ez; [apply Z.leb_le in Ez; lia|].
+    destruct (pop_spec h next I) as [[A B]|[h' [m [k [A [B [C D]]]]]]].
+    { unfold abs in Hn. rewrite A in Hn. simpl in Hn. lia. }
+    rewrite A.
+    assert (Hn' : (n <= length (abs h'))%nat).
+    { apply Permutation_length in C. simpl in C. lia. }
+    destruct (IH h' next B Hn') as [rest [L [P [M [S F]]]]].
+    assert (Hsub : forall y, In y (abs h') -> In y (abs h)).
+    { intros y Hy. eapply Permutation_in; [symmetry; apply C|right; auto]. }
+    exists rest. split; [simpl; congruence|]. split; [rewrite C, P; reflexivity|]. split; [|split].
+    + intros a b [<-|Ha] Hb; [|auto]. simpl. apply D. apply Hsub.
+      eapply Permutation_in; [symmetry; apply P|apply in_or_app; auto].
+    + cbn [map fst]. destruct (pop_n lt n h') as [|b out'] eqn:Eo; [reflexivity|].
+      cbn [map] in *.
+      change (sorted_by lt (k :: fst b :: map fst out')) with (negb (lt (fst b) k) && sorted_by lt (fst b :: map fst out')).
+      rewrite S.
+      inversion F as [|? ? Fb _]; subst. rewrite (D b (Hsub b Fb)). reflexivity.
+    + constructor; [eapply Permutation_in; [symmetry; apply C|left; reflexivity]|].
+      eapply Forall_impl; [|apply F]. auto.
+Qed.
+
+Lemma kitems_length : forall keys i, length (kitems i keys) = length keys.
+Proof. induction keys as [|k keys IH]; intros i; simpl; [reflexivity|]. rewrite IH. reflexivity. Qed.
+
+Theorem small_model_spec keys n : small_spec keys n (small_model lt keys n).
+Proof.
+  unfold small_model, small_spec. destruct (Z.leb (Z.of_nat (length keys)) n) eqn:E.
+  - apply Z.leb_le in E. exists []. rewrite app_nil_r. split; auto. split.
+    + rewrite kitems_length. lia.
+    + split; [intros a b _ []|lia].
+  - apply Z.leb_gt in E.
+    destruct (pushes_spec keys init SInv_init) as [[_ I] P]. fold (run lt (map Push keys)) in *.
+    simpl in P. rewrite app_nil_r in P.
+    destruct (pop_n_spec (Z.to_nat n) _ _ I) as [rest [A [B [C [D _]]]]].
+    { rewrite (Permutation_length P), kitems_length. lia. }
+    exists rest. split; [rewrite <- P; auto|]. split; [rewrite A; lia|]. split; auto.
+Qed.
+
+(* the executable check evaluated on the real generator's output means what it says *)
+Lemma rm1_perm p : forall l l', rm1 p l = Some l' -> Permutation l (p :: l').
+Proof.
+  induction l as [|q r IH]; simpl; intros l' H; [discriminate|].
+  destruct (pair_eqb p q) eqn:E.
+  - inversion H; subst. unfold pair_eqb in E. apply andb_true_iff in E. destruct E as [E1 E2].
+    apply Z.eqb_eq in E1, E2. destruct p, q; simpl in *; subst. reflexivity.
+  - destruct (rm1 p r) as [r'|]; [|discriminate]. inversion H; subst.
+    rewrite (IH r' eq_refl). apply perm_swap.
+Qed.
+
+Lemma take_out_perm : forall out l rest, take_out l out = Some rest -> Permutation l (out ++ rest).
+Proof.
+  induction out as [|p out IH]; simpl; intros l rest H.
+  - inversion H; subst. reflexivity.
+  - destruct (rm1 p l) as [l'|] eqn:E; [|discriminate].
+    rewrite (rm1_perm _ _ _ E). constructor. auto.
+Qed.
+
+Theorem holds_small_sound keys n out : holds_small lt keys n out = true -> small_spec keys n out.
+Proof.
+  unfold holds_small. intros H. apply andb_true_iff in H. destruct H as [H H3].
+  apply andb_true_iff in H. destruct H as [H1 H2].
+  destruct (take_out (kitems 0 keys) out) as [rest|] eqn:E; [|discriminate].
+  exists rest. split; [apply take_out_perm; auto|]. split; [apply Z.eqb_eq; auto|]. split.
+  - intros a b Ha Hb. rewrite forallb_forall in H2. specialize (H2 a Ha).
+    rewrite forallb_forall in H2. specialize (H2 b Hb). apply negb_true_iff in H2. exact H2.
+  - intros Hn. apply orb_true_iff in H3. destruct H3 as [H3|H3]; auto. apply Z.leb_le in H3. lia.
+Qed.
+
+(* ---- from the lock-step correspondence to the executable statement ---- *)
+Lemma ret_eqb_eq a b : ret_eqb a b = true -> a = b.
+Proof.
+  destruct a as [|i k|e], b as [|i' k'|e']; simpl; intros H; try discriminate; auto.
+  - apply andb_true_iff in H. destruct H as [H1 H2]. apply Z.eqb_eq in H1, H2. congruence.
+  - destruct e, e'; simpl in H; try discriminate; reflexivity.
+Qed.
+
+Lemma corr_run_agrees : forall h s, corr_run lt s h = true -> agrees s h.
+Proof.
+  induction h as [|[o ob] rest IH]; intros s H; cbn [corr_run agrees] in *; [exact I|].
+  repeat (apply andb_true_iff in H; destruct H as [H ?]).
+  split; [symmetry; apply ret_eqb_eq; auto|]. split; [symmetry; apply Z.eqb_eq; auto|]. auto.
+Qed.
+
+Lemma model_obs_agrees : forall ops s, agrees s (model_obs lt s ops).
+Proof. induction ops as [|o ops IH]; intros s; cbn [model_obs agrees]; auto. Qed.
+
+Lemma live_rel_init : live_rel [] (abs (sh init)).
+Proof. unfold live_rel. reflexivity. Qed.
+
+Lemma ref_run_corr h : corr_run lt init h = true -> ref_run lt true true [] 0 h = true.
+Proof.
+  intros H. apply (ref_run_agrees h init [] SInv_init live_rel_init). apply corr_run_agrees. exact H.
+Qed.
+
+Lemma ref_run_model ops : ref_run lt true true [] 0 (model_obs lt init ops) = true.
+Proof. apply (ref_run_agrees _ init [] SInv_init live_rel_init). apply model_obs_agrees. Qed.
+
+End Order.
+
+(* ---- the two orders of the real heaps: `<` (FibonacciHeap) and ReversedComparator's `>` (MaxFibonacciHeap) ---- *)
+Lemma key_lt_irrefl mx a : key_lt mx a a = false.
+Proof. destruct mx; simpl; apply Z.ltb_irrefl. Qed.
+Lemma key_lt_trans mx a b c : key_lt mx a b = true -> key_lt mx b c = true -> key_lt mx a c = true.
+Proof. destruct mx; simpl; rewrite !Z.ltb_lt; lia. Qed.
+Lemma key_lt_total mx a b : key_lt mx a b = true \/ a = b \/ key_lt mx b a = true.
+Proof. destruct mx; simpl; rewrite !Z.ltb_lt; lia. Qed.
+
+Definition strict_total (lt : Z -> Z -> bool) : Prop :=
+  (forall a, lt a a = false) /\ (forall a b c, lt a b = true -> lt b c = true -> lt a c = true) /\
+  (forall a b, lt a b = true \/ a = b \/ lt b a = true).
+
+Lemma key_lt_strict_total mx : strict_total (key_lt mx).
+Proof. split; [apply key_lt_irrefl|]. split; [apply key_lt_trans|apply key_lt_total]. Qed.
+
+(* C16, any strict total order on the keys: after EVERY history the model has reported no internal error
+   (no missing node, no exhausted fuel in consolidate / the deleted-min loop), the invariant holds, item ids
+   are unique, and the reported size is the number of live items *)
+Theorem C16_invariant lt : strict_total lt -> forall ops, let s := run lt ops in
+  serr s = false /\ Inv lt (sh s) (snext s) /\ NoDup (map snd (abs (sh s))) /\
+  hn (sh s) = Z.of_nat (length (abs (sh s))).
+Proof. intros [A [B C]]. apply run_inv; auto. Qed.
+
+(* ... and every next operation returns / changes the multiset of live (key, id) pairs as specified:
+   peek shows and pop returns-and-removes an item with a minimal key; push, decrease_key, remove act on the
+   multiset as they should (non-members are left alone, key increases raise ValueError and change nothing) *)
+Theorem C16_operation lt : strict_total lt -> forall ops o,
+  let s := run lt ops in let s' := run lt (ops ++ [o]) in
+  op_spec lt o (snext s) (abs (sh s)) (step_ret lt s o) (abs (sh s')) /\
+  snext s' = next_after_op o (snext s) /\ (forall y, In y (abs (sh s)) -> 0 <= snd y < snext s).
+Proof. intros [A [B C]]. apply run_step; auto. Qed.
+
+Theorem C16_min ops o : let lt := key_lt false in
+  let s := run lt ops in let s' := run lt (ops ++ [o]) in
+  serr s = false /\ Inv lt (sh s) (snext s) /\ hn (sh s) = Z.of_nat (length (abs (sh s))) /\
+  op_spec lt o (snext s) (abs (sh s)) (step_ret lt s o) (abs (sh s')).
+Proof.
+  cbv zeta. destruct (C16_invariant _ (key_lt_strict_total false) ops) as [A [B [_ C]]].
+  destruct (C16_operation _ (key_lt_strict_total false) ops o) as [D _]. auto.
+Qed.
+
+Theorem C16_max ops o : let lt := key_lt true in
+  let s := run lt ops in let s' := run lt (ops ++ [o]) in
+  serr s = false /\ Inv lt (sh s) (snext s) /\ hn (sh s) = Z.of_nat (length (abs (sh s))) /\
+  op_spec lt o (snext s) (abs (sh s)) (step_ret lt s o) (abs (sh s')).
+Proof.
+  cbv zeta. destruct (C16_invariant _ (key_lt_strict_total true) ops) as [A [B [_ C]]].
+  destruct (C16_operation _ (key_lt_strict_total true) ops o) as [D _]. auto.
+Qed.
+
+(* per-operation forms on any heap state satisfying the invariant *)
+Theorem C16_push lt : strict_total lt -> forall h next k, Inv lt h next ->
+  exists h', push lt next k h = (h', RItem next k, false) /\ Inv lt h' (next + 1) /\
+             Permutation (abs h') ((k, next) :: abs h).
+Proof. intros [A [B C]]. apply push_spec; auto. Qed.
+
+Theorem C16_peek lt : strict_total lt -> forall h next, Inv lt h next ->
+  (roots h = [] /\ peek lt h = (h, RExc AttributeError, false)) \/
+  (exists m k, peek lt h = (h, RItem m k, false) /\ In (k, m) (abs h) /\
+               forall y, In y (abs h) -> lt (fst y) k = false).
+Proof. intros [A [B C]]. apply peek_spec; auto. Qed.
+
+Theorem C16_pop lt : strict_total lt -> forall h next, Inv lt h next ->
+  (roots h = [] /\ pop lt h = (h, RExc AttributeError, false)) \/
+  (exists h' m k, pop lt h = (h', RItem m k, false) /\ Inv lt h' next /\
+                  Permutation (abs h) ((k, m) :: abs h') /\
+                  forall y, In y (abs h) -> lt (fst y) k = false).
+Proof. intros [A [B C]]. apply pop_spec; auto. Qed.
+
+Theorem C16_decrease_key lt : strict_total lt -> forall h next x k, Inv lt h next ->
+  exists h' r, decrease_key lt x k h = (h', r, false) /\ Inv lt h' next /\
+    ((~ In x (map snd (abs h)) /\ h' = h /\ r = RNone) \/
+     (exists kx, In (kx, x) (abs h) /\ lt kx k = true /\ h' = h /\ r = RExc ValueError) \/
+     (exists kx E, Permutation (abs h) ((kx, x) :: E) /\ lt kx k = false /\ r = RNone /\
+                   Permutation (abs h') ((k, x) :: E))).
+Proof. intros [A [B C]]. apply decrease_key_spec; auto. Qed.
+
+Theorem C16_remove lt : strict_total lt -> forall h next x, Inv lt h next ->
+  exists h', remove lt x h = (h', RNone, false) /\ Inv lt h' next /\
+    ((~ In x (map snd (abs h)) /\ h' = h) \/ (exists kx, Permutation (abs h) ((kx, x) :: abs h'))).
+Proof. intros [A [B C]]. apply remove_spec; auto. Qed.
+
+(* the executable statement evaluated by the harness: true on the model's own outputs for every history
+   and both heaps; and true on any observed history that passes the lock-step correspondence *)
+Theorem C16_holds mx ops : holds_C16 (model_case mx ops) = true.
+Proof.
+  unfold holds_C16, model_case. cbn [c_max c_ops].
+  apply ref_run_model; [apply key_lt_irrefl|apply key_lt_trans|apply key_lt_total].
+Qed.
+
+Theorem C16_corr_holds c : corr_C16 c = true -> holds_C16 c = true.
+Proof.
+  unfold corr_C16, holds_C16. apply ref_run_corr; [apply key_lt_irrefl|apply key_lt_trans|apply key_lt_total].
+Qed.
+
+(* smallest / largest *)
+Theorem C16_smallest keys n : small_spec (key_lt false) keys n (small_model (key_lt false) keys n).
+Proof. apply small_model_spec; [apply key_lt_irrefl|apply key_lt_trans|apply key_lt_total]. Qed.
+
+Theorem C16_largest keys n : small_spec (key_lt true) keys n (small_model (key_lt true) keys n).
+Proof. apply small_model_spec; [apply key_lt_irrefl|apply key_lt_trans|apply key_lt_total]. Qed.
+
+Theorem C16_small_sound c : holds_C16s c = true ->
+  small_spec (key_lt (s_max c)) (s_keys c) (s_n c) (s_out c).
+Proof. apply holds_small_sound. Qed.
+
+Lemma list_eqb_pair_eq : forall l l', list_eqb pair_eqb l l' = true -> l = l'.
+Proof.
+  induction l as [|[a b] l IH]; destruct l' as [|[a' b'] l']; simpl; intros H; try discriminate; auto.
+  apply andb_true_iff in H. destruct H as [H1 H2]. unfold pair_eqb in H1. simpl in H1.
+  apply andb_true_iff in H1. destruct H1 as [H0 H1]. apply Z.eqb_eq in H0, H1. subst. f_equal. auto.
+Qed.
+
+Theorem C16_small_corr c : corr_C16s c = true ->
+  small_spec (key_lt (s_max c)) (s_keys c) (s_n c) (s_out c).
+Proof.
+  unfold corr_C16s. intros H. apply list_eqb_pair_eq in H. rewrite H.
+  apply small_model_spec; [apply key_lt_irrefl|apply key_lt_trans|apply key_lt_total].
+Qed.
+
+(* ---- the statements are about non-trivial objects ---- *)
+Definition ex_ops : list op :=
+  [Push 5; Push 3; Push 7; Push 3; Push 9; Push 1; Pop; DecreaseKey 4 2; DecreaseKey 2 8; Remove 1; Peek; Pop; Pop].
+
+(* min-heap: after the history the live items are 7 (id 2) and 5 (id 0); consolidation into a tree with
+   children, a cut that marks the parent, a rejected key increase and a removal occurred on the way *)
+Example ex_min_history :
+  let s := run (key_lt false) ex_ops in
+  serr s = false /\ abs (sh s) = [(5, 0); (7, 2)] /\ hn (sh s) = 2 /\
+  map (fun n => step_ret (key_lt false) (run (key_lt false) (firstn n ex_ops)) (nth n ex_ops Peek)) [6; 8; 10; 11; 12]%nat
+  = [RItem 5 1; RExc ValueError; RItem 4 2; RItem 4 2; RItem 3 3].
+Proof. vm_compute. repeat split. Qed.
+
+Example ex_max_history :
+  let s := run (key_lt true) [Push 5; Push 3; Push 7; Push 3; Pop; DecreaseKey 1 6; Pop] in
+  serr s = false /\ abs (sh s) = [(5, 0); (3, 3)] /\
+  step_ret (key_lt true) s Pop = RItem 0 5.
+Proof. vm_compute. repeat split. Qed.
+
+Example ex_holds : holds_C16 (model_case false ex_ops) = true /\ corr_C16 (model_case true ex_ops) = true /\
+  wf_C16 (model_case false ex_ops) = true.
+Proof. vm_compute. repeat split. Qed.
+
+(* holds_C16 is not vacuous: a history whose pop returns a non-minimal item, and one whose length is wrong *)
+Example ex_holds_rejects :
+  holds_C16 {| c_max := false; c_ops :=
+     [(Push 2, {| o_ret := RItem 0 2; o_len := 1; o_heap := empty; o_aux := [] |});
+      (Push 1, {| o_ret := RItem 1 1; o_len := 2; o_heap := empty; o_aux := [] |});
+      (Pop, {| o_ret := RItem 0 2; o_len := 1; o_heap := empty; o_aux := [] |})] |} = false /\
+  holds_C16 {| c_max := false; c_ops :=
+     [(Push 2, {| o_ret := RItem 0 2; o_len := 1; o_heap := empty; o_aux := [] |});
+      (Pop, {| o_ret := RItem 0 2; o_len := 1; o_heap := empty; o_aux := [] |})] |} = false.
+Proof. vm_compute. repeat split. Qed.
+
+Example ex_smallest :
+  small_model (key_lt false) [4; 1; 3; 1; 5] 3 = [(1, 1); (1, 3); (3, 2)] /\
+  small_model (key_lt true) [4; 1; 3; 1; 5] 2 = [(5, 4); (4, 0)] /\
+  small_model (key_lt false) [4; 1] 2 = [(4, 0); (1, 1)] /\
+  holds_small (key_lt false) [4; 1; 3; 1; 5] 3 [(1, 1); (1, 3); (3, 2)] = true /\
+  holds_small (key_lt false) [4; 1; 3; 1; 5] 3 [(1, 1); (3, 2); (1, 3)] = false /\
+  holds_small (key_lt false) [4; 1; 3; 1; 5] 2 [(1, 1); (3, 2)] = false.
+Proof. vm_compute. repeat split. Qed.
+
+(* the definitions used in the statements, unfolded (so that PropC16.v fixes their meaning) *)
+Lemma op_spec_meaning lt o next A r A' :
+  op_spec lt o next A r A' <->
+  match o with
+  | Push k => r = RItem next k /\ Permutation A' ((k, next) :: A)
+  | Peek => (A = [] /\ r = RExc AttributeError /\ A' = A) \/
+            (exists m k, r = RItem m k /\ In (k, m) A /\ (forall y, In y A -> lt (fst y) k = false) /\ A' = A)
+  | Pop => (A = [] /\ r = RExc AttributeError /\ A' = A) \/
+           (exists m k, r = RItem m k /\ (forall y, In y A -> lt (fst y) k = false) /\ Permutation A ((k, m) :: A'))
+  | DecreaseKey x k =>
+      (~ In x (map snd A) /\ A' = A /\ r = RNone) \/
+      (exists kx, In (kx, x) A /\ lt kx k = true /\ A' = A /\ r = RExc ValueError) \/
+      (exists kx E, Permutation A ((kx, x) :: E) /\ lt kx k = false /\ r = RNone /\ Permutation A' ((k, x) :: E))
+  | Remove x =>
+      r = RNone /\ ((~ In x (map snd A) /\ A' = A) \/ (exists kx, Permutation A ((kx, x) :: A')))
+  end.
+Proof. destruct o; reflexivity. Qed.
+
+Lemma Inv_meaning lt h next : Inv lt h next ->
+  NoDup (map eid (entsl (roots h))) /\ Forall (hord lt) (roots h) /\
+  hn h = Z.of_nat (length (entsl (roots h))) /\
+  match minp h with
+  | None => roots h = []
+  | Some m => exists r, In r (roots h) /\ nid r = m /\
+                        Forall (fun e => lt (ekey e) (nkey r) = false) (entsl (roots h))
+  end /\
+  Forall (fun e => edel e = false) (entsl (roots h)) /\
+  Forall (fun e => 0 <= eid e < next) (entsl (roots h)).
+Proof. intros [A B C D E F G]. repeat split; auto. Qed.
+
+Lemma small_spec_meaning lt keys n out :
+  small_spec lt keys n out <->
+  exists rest, Permutation (kitems 0 keys) (out ++ rest) /\
+    Z.of_nat (length out) = Z.min (Z.max n 0) (Z.of_nat (length keys)) /\
+    (forall a b, In a out -> In b rest -> lt (fst b) (fst a) = false) /\
+    (n < Z.of_nat (length keys) -> sorted_by lt (map fst out) = true).
+Proof. reflexivity. Qed.
